@@ -21,12 +21,41 @@ func randUTF8(r *Rng, nchars int) []byte {
 			out = append(out, rune(0x20+r.Intn(0x5f)))
 		}
 	}
+	// code points an over-helpful decoder treats specially: byte-order marks (leading and inner), NUL, the replacement character
+	if nchars > 0 && r.Intn(5) == 0 {
+		out[0] = 0xFEFF
+	}
+	if nchars > 2 && r.Intn(8) == 0 {
+		out[1+r.Intn(nchars-1)] = []rune{0xFEFF, 0xFFFE, 0, 0xFFFD, 0x2028}[r.Intn(5)]
+	}
 	return []byte(string(out))
+}
+
+// packViews lays the arguments out back to back in one buffer and returns views of it whose capacity runs to the
+// end of the buffer - the way a server hands out pieces of one received attribute. A callee that appends to one of
+// its arguments overwrites the next one.
+func packViews(args ...[]byte) [][]byte {
+	n := 0
+	for _, a := range args {
+		n += len(a)
+	}
+	buf := make([]byte, 0, n+64)
+	for _, a := range args {
+		buf = append(buf, a...)
+	}
+	buf = buf[:cap(buf)]
+	out := make([][]byte, len(args))
+	off := 0
+	for i, a := range args {
+		out[i] = buf[off : off+len(a)]
+		off += len(a)
+	}
+	return out
 }
 
 func init() {
 	props["C19"] = func(c *Ctx) {
-		c.Res.Rule = "random 16-byte challenges (and other lengths for ChallengeHash), user names, passwords of 0..256 characters (ASCII and multi-byte UTF-8 incl. 4-byte code points), 24-byte and wrong-sized NT responses, 16-byte and wrong-sized master keys, key lengths 8/16/20, both directions; every exported function of rfc2759/rfc3079 compared with the Go-composition model and with the from-the-RFC oracle running on the Gallina SHA-1/MD4/DES/UTF-16 (independent of Go's crypto packages). non-trivial = non-ASCII or multi-block password, or a refused size"
+		c.Res.Rule = "random 16-byte challenges (and other lengths for ChallengeHash), user names, passwords of 0..256 characters (ASCII and multi-byte UTF-8 incl. 4-byte code points, leading and inner byte-order marks, NUL, U+FFFD), all byte arguments passed as adjacent views of one buffer with spare capacity while the requests carry the original values, 24-byte and wrong-sized NT responses, 16-byte and wrong-sized master keys, key lengths 8/16/20, both directions; every exported function of rfc2759/rfc3079 compared with the Go-composition model and with the from-the-RFC oracle running on the Gallina SHA-1/MD4/DES/UTF-16 (independent of Go's crypto packages). non-trivial = non-ASCII or multi-block password, or a refused size"
 		r := c.Rng.Fork()
 		n := c.N(120, 4000)
 		for i := 0; i < n; i++ {
@@ -58,27 +87,37 @@ func init() {
 			default:
 				pw = []byte(fmt.Sprintf("pass%dword", r.Intn(100000)))
 			}
-			nt, err := rfc2759.GenerateNTResponse(auth, peer, user, pw)
+			// the calls below get views into one shared buffer; the requests carry the original values
+			vw := packViews(peer, pw, auth, user)
+			vpeer, vpw, vauth, vuser := vw[0], vw[1], vw[2], vw[3]
+			if i%3 == 0 {
+				// ChallengeHash first, as GenerateNTResponse does internally, but called by the user directly
+				c.Add(T(Req{Name: "chash", Bs: [][]byte{peer, auth, user}}, (&Toks{}).B(rfc2759.ChallengeHash(vpeer, vauth, vuser)), "chash"))
+			}
+			nt, err := rfc2759.GenerateNTResponse(vauth, vpeer, vuser, vpw)
 			if err != nil {
 				c.Fail("spec", "GenerateNTResponse", tag, hx(pw), err.Error(), "no error", "the UTF-16 encoder never fails")
 				continue
 			}
 			c.Add(T(Req{Name: "ntresp", Bs: [][]byte{auth, peer, user, pw}}, (&Toks{}).B(nt), tag))
-			ar, err := rfc2759.GenerateAuthenticatorResponse(auth, peer, nt, user, pw)
+			// now as a server holds them: peer challenge and NT response are pieces of one received MS-CHAP2-Response
+			attr := packViews([]byte{1, 0}, peer, make([]byte, 8), nt)
+			vpeer, nt = attr[1], attr[3]
+			ar, err := rfc2759.GenerateAuthenticatorResponse(vauth, vpeer, nt, vuser, vpw)
 			if err == nil {
 				c.Add(T(Req{Name: "authresp", Bs: [][]byte{auth, peer, nt, user, pw}}, (&Toks{}).B([]byte(ar)), tag))
 			}
 			if i%3 == 0 {
 				p2, a2 := r.Bytes(r.Intn(20)), r.Bytes(r.Intn(20))
 				c.Add(T(Req{Name: "chash", Bs: [][]byte{p2, a2, user}}, (&Toks{}).B(rfc2759.ChallengeHash(p2, a2, user)), "chash"))
-				u16, _ := rfc2759.ToUTF16(pw)
+				u16, _ := rfc2759.ToUTF16(vpw)
 				c.Add(T(Req{Name: "utf16", Bs: [][]byte{pw}}, (&Toks{}).B(u16), "utf16"))
 				c.Add(T(Req{Name: "nthash", Bs: [][]byte{u16}}, (&Toks{}).B(rfc2759.NTPasswordHash(u16)), "nthash"))
 				k7, clear := r.Bytes(7), r.Bytes(8)
 				c.Add(T(Req{Name: "descrypt7", Bs: [][]byte{k7, clear}}, (&Toks{}).B(rfc2759.DESCrypt(k7, clear)), "des7"))
 			}
 			// MPPE
-			u16, _ := rfc2759.ToUTF16(pw)
+			u16, _ := rfc2759.ToUTF16(vpw)
 			hh := rfc2759.NTPasswordHash(rfc2759.NTPasswordHash(u16))
 			mk := rfc3079.GetMasterKey(hh, nt)
 			c.Add(T(Req{Name: "masterkey", Bs: [][]byte{hh, nt}}, (&Toks{}).B(mk), "masterkey"))
@@ -105,7 +144,7 @@ func init() {
 					ktag = "makekey-wrong-size"
 				}
 				t2 := &Toks{}
-				k2, err := rfc3079.MakeKey(ntr, pw, send)
+				k2, err := rfc3079.MakeKey(ntr, vpw, send)
 				if err != nil {
 					t2.E(8)
 				} else {
